@@ -128,7 +128,11 @@ fn render(steps: &[SDef], r: &mut Renderer) -> String {
                         _ => mid.push(m.to_string()),
                     }
                 }
-                Item::Flag(f) => body.push(f.to_string()),
+                // (an index in the name of a flag may be spelled with a subscript digit as well)
+                Item::Flag(f) => body.push(match subscript(f) {
+                    Some(s) if r.pick(2) == 1 => s,
+                    _ => f.to_string(),
+                }),
                 Item::KV(k, vals) => {
                     let key = match subscript(k) {
                         Some(s) => {
@@ -221,6 +225,10 @@ fn definitions() -> Vec<(&'static str, Vec<SDef>)> {
             vec![SDef { name: "stack", items: vec![KV("push", vec!["1", "2"])] }, SDef { name: "addone", items: vec![] }, SDef { name: "stack", items: vec![KV("pop", vec!["1", "2"])] }],
         ),
         ("macro-alone", vec![SDef { name: "m:pipe", items: vec![Mod("inv")] }]),
+        (
+            "legacy-stack",
+            vec![SDef { name: "push", items: vec![Flag("v_1"), Flag("v_2")] }, SDef { name: "addone", items: vec![] }, SDef { name: "pop", items: vec![Flag("v_2"), Flag("v_1")] }],
+        ),
         ("lcc", vec![SDef { name: "lcc", items: vec![KV("lat_1", vec!["33"]), KV("lat_2", vec!["45"]), KV("lon_0", vec!["10"]), KV("lat_0", vec!["40"]), KV("ellps", vec!["bessel"])] }]),
         ("adaptors", vec![SDef { name: "geo:in", items: vec![] }, SDef { name: "utm", items: vec![KV("zone", vec!["32"])] }, SDef { name: "neu:out", items: vec![Mod("omit_inv")] }]),
     ]
